@@ -25,10 +25,10 @@ PROPS = ["C16", "C17", "C18", "C19"]
 
 CLASSES_ALL = ["TaskPool", "SimpleTaskPool", "PlusPool", "SimplePlus"]
 BUDGET = {
-    "C16": {"quick": 6, "thorough": 60},          # extra seeded (class, width, pool name) sweeps beside the fixed grid
-    "C17": {"quick": 90, "thorough": 1500},       # random scripts (beside the complete option-subset sweep)
-    "C18": {"quick": 50, "thorough": 900},
-    "C19": {"quick": 22, "thorough": 320},
+    "C16": {"quick": 16, "thorough": 200},          # extra seeded (class, width, pool name) sweeps beside the fixed grid
+    "C17": {"quick": 320, "thorough": 6000},       # random scripts (beside the complete option-subset sweep)
+    "C18": {"quick": 260, "thorough": 4000},
+    "C19": {"quick": 64, "thorough": 700},
 }
 CLI_CLIENTS = {"quick": 5, "thorough": 60}
 
